@@ -378,6 +378,35 @@ def sendLoop (depth : Nat) : List Val → List (Name × List Char) → Option (L
     | .sym s => sendLoop depth r (insertField msg s.globalName (printForMessage v depth))
     | _      => none
 
+/-- `(input-file *stdin*)`: every time the read TIMES OUT before the line is complete, the debugger channel is polled —
+INTERRUPT raises `interrupted` (source input-file), ABORT aborts, both losing what was already read of the line; any
+other command is consumed and ignored; with nothing pending the wait goes on.  Then `read_line`.  `n` bounds the number
+of time-outs (there is at most one per chunk). -/
+def inputStdin : Nat → St → Res Val × St
+  | n + 1, st =>
+    match firstTimeout st.stdinBuf st.stdinChunks with
+    | some (before, after) =>
+      if st.attached then
+        match st.inbox with
+        | c :: rest =>
+          let st1 := { st with inbox := rest }
+          if c.text == cs!"INTERRUPT" then
+            (.err (makeError cs!"interrupted" cs!"input-file" []), { st1 with stdinBuf := [], stdinChunks := after })
+          else if c.text == cs!"ABORT" then (.err .nil, { st1 with stdinBuf := [], stdinChunks := after })
+          else inputStdin n { st1 with stdinChunks := before ++ after }
+        | [] => inputStdin n { st with stdinChunks := before ++ after }
+      else inputStdin n { st with stdinChunks := before ++ after }
+    | none =>
+      match st.readLine with
+      | (.line text, st1)   => (.ok (.ofChars text), st1)
+      | (.eof, st1)         => (.err (makeError cs!"eof" cs!"input-file" []), st1)
+      | (.invalidData, st1) => (.err (makeError cs!"cannot-read-file" cs!"input-file" [(cs!"details", .ofChars cs!"invalid data")]), st1)
+  | 0, st =>
+    match st.readLine with
+    | (.line text, st1)   => (.ok (.ofChars text), st1)
+    | (.eof, st1)         => (.err (makeError cs!"eof" cs!"input-file" []), st1)
+    | (.invalidData, st1) => (.err (makeError cs!"cannot-read-file" cs!"input-file" [(cs!"details", .ofChars cs!"invalid data")]), st1)
+
 /-- every native that does not call back into the evaluator -/
 def simpleNative (id : NativeId) (args : List Val) (depth : Nat) (st : St) : Out :=
   match id with
@@ -513,11 +542,7 @@ def simpleNative (id : NativeId) (args : List Val) (depth : Nat) (st : St) : Out
           else (.ok (plist [(cs!"command", .symName c.text)]), st1)
       else (.ok .nil, st)) st
   | .inputFile => arity1 cs!"input-file" args st fun src =>
-      if src.isSymNamed cs!"*stdin*" then
-        match st.readLine with
-        | (.line text, st1)   => (.ok (.ofChars text), st1)
-        | (.eof, st1)         => (.err (makeError cs!"eof" cs!"input-file" []), st1)
-        | (.invalidData, st1) => (.err (makeError cs!"cannot-read-file" cs!"input-file" [(cs!"details", .ofChars cs!"invalid data")]), st1)
+      if src.isSymNamed cs!"*stdin*" then inputStdin (st.stdinChunks.length + 1) st
       else match listToString src with
         | none   => (.err (makeError cs!"wrong-argument-type" cs!"input-file"
                       [(cs!"expected", .symName cs!"string-type"), (cs!"actual", .symName src.getType.name)]), st)
